@@ -883,4 +883,50 @@ MUTANTS = [
                         }
                     }
                 }""")]},
+    {"id": "keep-char-tuple-match", "kind": "preserving", "props": [], "edits": [
+        (IMPLS, """                if let Some(value) = iter.next() {
+                    if iter.next().is_none() {
+                        Ok(value)
+                    } else {
+                        let len = 2 + iter.count();
+                        Err(take_cf_content(E::error::<Infallible>(
+                            None,
+                            ErrorKind::Unexpected {
+                                msg: format!("expected a string of one character, but found the following string of {} characters: `{}`", len, s),
+                            },
+                            location,
+                        )))
+                    }
+                } else {
+                    Err(take_cf_content(E::error::<Infallible>(
+                        None,
+                        ErrorKind::Unexpected {
+                            msg: String::from(
+                                "expected a string of one character, but found an empty string",
+                            ),
+                        },
+                        location,
+                    )))
+                }""", """                match (iter.next(), iter.next()) {
+                    (Some(value), None) => Ok(value),
+                    (None, _) => Err(take_cf_content(E::error::<Infallible>(
+                        None,
+                        ErrorKind::Unexpected {
+                            msg: String::from(
+                                "expected a string of one character, but found an empty string",
+                            ),
+                        },
+                        location,
+                    ))),
+                    (Some(_), Some(_)) => {
+                        let len = 2 + iter.count();
+                        Err(take_cf_content(E::error::<Infallible>(
+                            None,
+                            ErrorKind::Unexpected {
+                                msg: format!("expected a string of one character, but found the following string of {} characters: `{}`", len, s),
+                            },
+                            location,
+                        )))
+                    }
+                }""")]},
 ]
